@@ -10,6 +10,8 @@
      ECreateFail _create_connection raised / was cancelled: _release_acquired(placeholder)
      ERelease    Connection.release()/close(): _release
      EClose      BaseConnector._close_immediately
+   A closed connector refuses to queue a waiter (the request fails with ClientConnectionError) and
+   close clears the per-host book: both facts are read from the source by the translator.
    `order` is the outcome of random.shuffle(list(self._waiters)) inside _release_waiter.
    The capacity formula and its three call-site comparisons come from Generated/PoolGen.v. *)
 From AV Require Import Lib.Base Generated.PoolGen.
@@ -201,6 +203,9 @@ Fixpoint cancel_all (w : list (task * key * bool)) (p : list (task * pc)) : list
       cancel_all r (if canc then p else set_pc p t (PWaiting k FCancelled))
   end.
 
+(* top of the loop in _wait_for_available_connection: a closed connector refuses to queue *)
+Definition refuse_wait (s : state) : bool := wait_checks_closed && closed s.
+
 Definition step (c : cfg) (s : state) (e : event) : option state :=
   match e with
   | EStart t k =>
@@ -210,7 +215,8 @@ Definition step (c : cfg) (s : state) (e : event) : option state :=
           | Some _ => Some (proceed c s t k)          (* first _get: no capacity check *)
           | None =>
               if connect_must_wait (avail c s k)
-              then Some (with_pc (with_waiters s (waiters s ++ [(t, k, false)])) t (PWaiting k FPending))
+              then (if refuse_wait s then Some (with_pc s t PFailed)
+                    else Some (with_pc (with_waiters s (waiters s ++ [(t, k, false)])) t (PWaiting k FPending)))
               else Some (proceed c s t k)
           end
       | _ => None
@@ -220,6 +226,7 @@ Definition step (c : cfg) (s : state) (e : event) : option state :=
       | PWaiting k FWoken =>
           let s1 := with_woken s (filter (fun x => negb (x =? t)) (woken s)) in
           if wait_slot_found (avail c s1 k) then Some (proceed c s1 t k)
+          else if refuse_wait s1 then Some (with_pc s1 t PFailed)
           else Some (with_pc (with_waiters s1 ((t, k, false) :: waiters s1)) t (PWaiting k FPending))
       | PWaiting k FCancelled =>
           Some (with_pc (with_waiters s (filter (fun x => negb (fst (fst x) =? t)) (waiters s))) t PCancelled)
@@ -272,7 +279,7 @@ Definition step (c : cfg) (s : state) (e : event) : option state :=
       end
   | EClose =>
       if closed s then Some s
-      else Some {| acquired := []; hostacq := hostacq s; idle := [];
+      else Some {| acquired := []; hostacq := (if close_clears_per_host then [] else hostacq s); idle := [];
                    waiters := []; woken := woken s;
                    pcs := cancel_all (waiters s) (pcs s); closed := true; nconn := nconn s;
                    closedc := map fst (idle s) ++ conns_of (acquired s) ++ closedc s |}
